@@ -159,6 +159,25 @@ pub fn profile_weights(name: &str) -> Weights {
             to_server: 18,
             ..base
         },
+        // as "steal" / "placement", with time-limited workers, time requests, time advances and
+        // retract checks frequent enough to reach the hard rejects of the periodic check
+        "steal2" => Weights {
+            submit: 14,
+            lost: 5,
+            cancel: 4,
+            to_server: 18,
+            advance: 5,
+            retract_check: 5,
+            ..base
+        },
+        "placement2" => Weights {
+            connect: 8,
+            lost: 4,
+            advance: 5,
+            cancel: 3,
+            retract_check: 4,
+            ..base
+        },
         "loss" => Weights {
             lost: 12,
             stop_worker: 3,
@@ -441,12 +460,15 @@ impl Sim {
         let can_request = pending_clients < 3;
         if n_workers < self.limits.max_workers {
             let boost = if n_workers == 0 { 6 } else { 1 };
-            out.push((
-                w.connect * boost,
-                Action::Connect {
-                    palette: sub(c2, 3, palette::N_WORKER_PALETTE),
-                },
-            ));
+            let mut p = sub(c2, 3, palette::N_WORKER_PALETTE);
+            if self.genv >= 1
+                && matches!(self.profile.as_str(), "placement2" | "steal2")
+                && sub(c2, 19, 4) == 0
+            {
+                // workers with a time limit
+                p = 6 + sub(c2, 20, 2);
+            }
+            out.push((w.connect * boost, Action::Connect { palette: p }));
         }
         if self.genv >= 1 && w.queue_ev > 0 {
             out.push((w.queue_ev, Action::QueueEvent { arg: c2 }));
@@ -1441,9 +1463,13 @@ impl Sim {
         if self.genv < 1 {
             return None;
         }
-        let prefer = matches!(self.profile.as_str(), "placement" | "steal" | "resources");
+        let prefer = matches!(self.profile.as_str(), "placement" | "steal" | "resources" | "placement2" | "steal2");
         if prefer && sub(arg, 191, 3) == 0 {
             return Some(14 + sub(arg, 192, 3));
+        }
+        // tasks with a time request (they meet workers with a time limit, see `enabled`)
+        if matches!(self.profile.as_str(), "placement2" | "steal2") && sub(arg, 193, 5) == 0 {
+            return Some(10);
         }
         Some(sub(arg, 22, palette::N_RQ_PALETTE_V1))
     }
